@@ -9,7 +9,8 @@ from harness.main import Engine
 PID = 'C18'
 LEVEL = 'proof'
 RULE = ('threads/sched: 2-4 REAL threads, each running a generated program of configurable calls (shared and distinct '
-        'scopes), operative_config_str() reads and first uses of the same / different singletons; a sys.settrace line '
+        'scopes; calls that record parameters and calls that record nothing but themselves: parameterless, or every '
+        'parameter supplied by the caller), operative_config_str() reads and first uses of the same / different singletons; a sys.settrace line '
         'tracer pauses a thread at every line of gin/config.py that touches the operative record, its lock or the '
         'singleton cache (lines found from the AST of the current file), and a central scheduler follows a generated '
         'schedule (thorough: every interleaving of 2 threads at this granularity for small programs). Observed: '
@@ -113,7 +114,28 @@ class ThreadEngine(Engine):
     ] + [
         {'progs': [[['singleton', 'sa'], ['read']], [['call', 0, 's2'], ['singleton', 'sa']]],
          'schedule': [0] * k + [1] * 120 + [0] * 200} for k in range(0, 30, 3)
-    ] + self.sweeps(stride=3)
+    ] + self.sweeps(stride=3) + self.nothing_to_record()
+
+  # a call that has NOTHING TO RECORD but itself (every parameter supplied by the caller, or a configurable without
+  # parameters) made for the first time in its scope -- a new, empty section -- while a read of a non-empty record is
+  # under way: the reader stopped at every one of its preemption points while the whole call runs, and the call stopped
+  # at every one of its points while the whole read runs.  (pre, the call)
+  EMPTY_CALLS = [
+      ([['call', 1, '', 'q'], ['call', 0, 's2', '']], ['call', 0, 's1', 'pq']),
+      ([['call', 1, '', ''], ['call', 2, '']], ['call', 2, 's1']),
+      ([['call', 0, 's1', 'p'], ['call', 2, 's2']], ['call', 1, 's1/s2', 'pq']),
+  ]
+
+  def nothing_to_record(self):
+    out = []
+    for i, (pre, call) in enumerate(self.EMPTY_CALLS):
+      r_max = self.steps_alone(pre, [['read']])
+      w_max = self.steps_alone(pre, [call])
+      for k in range(1, r_max):
+        out.append({'pre': pre, 'progs': [[['read']], [call]], 'schedule': [0] * k + [1] * (w_max + 5) + [0] * (r_max + 5)})
+      for k in range(1 + i % 2, w_max, 2):
+        out.append({'pre': pre, 'progs': [[call, ['read']], [['read']]], 'schedule': [0] * k + [1] * (r_max + 5) + [0] * (w_max + r_max + 5)})
+    return out
 
   # two-dimensional sweeps: thread 0 runs a steps, thread 1 runs b steps, thread 0 runs to its end, thread 1 to its
   # end -- three context switches placed at EVERY pair of preemption points (a, b) of the two programs (the numbers of
@@ -149,7 +171,9 @@ class ThreadEngine(Engine):
     for _ in range(rng.randint(1, 4)):
       r = rng.random()
       if r < 0.45:
-        acts.append(['call', rng.randrange(2), rng.choice(SCOPES), rng.choice(['', '', 'p', 'q', 'pq'])])
+        # probe 2 has no parameters; 'pq': the caller supplies everything -- such calls record nothing but themselves
+        probe = rng.choice([0, 1, 0, 1, 2])
+        acts.append(['call', probe, rng.choice(SCOPES), rng.choice(['', '', 'p', 'q', 'pq', 'pq']) if probe < 2 else ''])
       elif r < 0.7:
         acts.append(['read'])
       else:
@@ -163,7 +187,11 @@ class ThreadEngine(Engine):
     self.kinds = {name: (None if rng.random() < 0.4 else rng.choice(FALSY + ODD + TRUTHY)) for name in NAMES}
     progs = [self.gen_prog(rng) for _ in range(n)]
     schedule = [rng.randrange(n) for _ in range(rng.randint(5, 60))]
-    return {'progs': progs, 'schedule': schedule}
+    case = {'progs': progs, 'schedule': schedule}
+    if rng.random() < 0.5:
+      # a sequential history before the threads start: the record the readers walk is not empty
+      case['pre'] = [a for a in self.gen_prog(rng) if a[0] == 'call'][:3]
+    return case
 
   def exhaustive(self):
     yield from self.sweeps()
@@ -177,7 +205,7 @@ class ThreadEngine(Engine):
   SEQ = {}     # the sequential run of the last (pre, programs) seen
 
   # parameters recorded by the two probes (fixed configuration): probe i has default p=i, bound q
-  VALS = {0: [['p', 0], ['q', 10]], 1: [['p', 1], ['q', 11]]}
+  VALS = {0: [['p', 0], ['q', 10]], 1: [['p', 1], ['q', 11]], 2: []}
 
   def queries(self, case):
     qs = []
@@ -185,6 +213,8 @@ class ThreadEngine(Engine):
       for sc in SCOPES:
         for p in ('p', 'q'):
           qs.append([sc, 'm.f%d' % i, p])
+    for sc in SCOPES:
+      qs.append([sc, 'm.f2', 'p'])       # the parameterless probe: is its section there
     return qs
 
   def to_coq(self, case):
@@ -213,6 +243,8 @@ class ThreadEngine(Engine):
         p = [list(x) for x in case['progs']]
         del p[t][i]
         yield dict(case, progs=p)
+    for i in range(len(case.get('pre') or [])):
+      yield dict(case, pre=case['pre'][:i] + case['pre'][i + 1:])
 
   def setup(self):
     gin = C.fresh_gin()
@@ -224,6 +256,10 @@ class ThreadEngine(Engine):
       fn.__module__ = None
       fns.append(gin.configurable('f%d' % i, module='m')(fn))
       gin.bind_parameter('m.f%d.q' % i, 10 + i)
+    env = {}
+    exec('def f2():\n  return ()\n', env)  # pylint: disable=exec-used
+    env['f2'].__module__ = None
+    fns.append(gin.configurable('f2', module='m')(env['f2']))
     return gin, fns
 
   def run_programs(self, gin, fns, progs, schedule, pre=None):
@@ -465,6 +501,164 @@ class ScopedClassReadEngine(Engine):
     return {'obs': T('Done'), 'fails': fails[:3], 'nontrivial': switches >= 2, 'tags': [form, other]}
 
 
+class NothingToRecordEngine(Engine):
+  """a read of a non-empty operative config (sections and macros) against a thread that makes, for the first time in its
+  scope, a call that has nothing to record but itself: a function or a class without parameters, a call whose every
+  parameter the caller supplies, and the first evaluation of a constant (`%c18mod.LIMIT`, by a consumer that has ALREADY
+  recorded its own parameters when the read starts).  The second thread runs `a` of its steps, the reader `b` of its
+  steps, the second thread runs to its end, the reader finishes.  Written from the property text: no thread fails, the
+  call returns its configured result, every read parses, and the operative config read when both have finished is the
+  one read after running the same call and read one after another.  Implementation only (Model/Threads.v has neither
+  macros nor constants, and these calls through it are exercised by threads-sched)."""
+  name = 'nothing-to-record'
+  model = False
+  rule = ('threads/sched: a reader of an operative config with sections and macros, stopped at its preemption points, '
+          'against the FIRST call in a scope of a parameterless function / parameterless class / fully caller-supplied '
+          'call / consumer of a not yet evaluated constant (stopped at its own points too); no failure, the call returns '
+          'its value, reads parse, final operative_config_str() == that of the sequential run')
+
+  DEFS = ('@gin.configurable\ndef report(title="untitled", n=0):\n  return title\n\n'
+          '@gin.configurable\ndef beat():\n  return "alive"\n\n'
+          '@gin.configurable\nclass Box:\n  def __init__(self):\n    self.v = "box"\n\n'
+          '@gin.configurable\ndef full(a, b=2):\n  return (a, b)\n\n'
+          '@gin.configurable\ndef use_limit(limit=None, other=None):\n  return (limit, other)\n\n'
+          'gin.constant("c18mod.LIMIT", 5)\ngin.constant("c18mod.OTHER", 6)\n')
+  CONFIG = ('TITLE = "weekly"\nSUB = "daily"\nreport.title = %TITLE\nreport.n = 3\ns0/report.title = %SUB\n'
+            'use_limit.limit = %c18mod.LIMIT\nlate/use_limit.other = %c18mod.OTHER\n')
+  WRITERS = {
+      'fn': ('w', lambda ns: ns['beat'](), 'alive'),
+      'class': ('w', lambda ns: ns['Box']().v, 'box'),
+      'supplied': ('w', lambda ns: ns['full'](1, b=7), (1, 7)),
+      'supplied-nested': ('w/x', lambda ns: ns['full'](b=1, a=0), (0, 1)),
+      'constant': ('', lambda ns: ns['use_limit'](), (5, None)),
+      'constant-scoped': ('late', lambda ns: ns['use_limit'](), (5, 6)),
+  }
+
+  def budget(self, tier):
+    return 40 if tier == 'quick' else 600
+
+  def setup(self):
+    gin = C.fresh_gin()
+    ns = {'gin': gin, '__name__': 'c18mod'}
+    exec(self.DEFS, ns)  # pylint: disable=exec-used
+    gin.parse_config(self.CONFIG)
+    return gin, ns
+
+  def run(self, writer, schedule, again):
+    gin, ns = self.setup()
+    scope, call, _ = self.WRITERS[writer]
+    ns['report']()
+    with gin.config_scope('s0'):
+      ns['report']()
+    with gin.config_scope('w'):
+      ns['report']()
+    if again:
+      with gin.config_scope(scope or None):
+        call(ns)                    # control: the section (and the constant's) is already there
+    reads, results = [], []
+
+    def reader():
+      reads.append(gin.operative_config_str())
+
+    def second():
+      with gin.config_scope(scope or None):
+        results.append(call(ns))
+    bodies = [reader, second]
+    if schedule is None:
+      errors, trace = [], []
+      for b in reversed(bodies):
+        try:
+          b()
+          errors.append(None)
+        except Exception as e:  # pylint: disable=broad-except
+          errors.append(e)
+      errors.reverse()
+    else:
+      s = sched.Scheduler(gin.config, bodies, schedule)
+      sched.install(gin.config, s)
+      errors, trace = s.run(), s.trace
+    final = None
+    try:
+      final = gin.operative_config_str()
+    except Exception as e:  # pylint: disable=broad-except
+      errors = list(errors) + [e]
+    return errors, reads, results, final, trace
+
+  STEPS = {}
+
+  def steps(self, writer):
+    """(steps of the reader, steps of the call) when each runs alone, on the current source"""
+    if writer not in self.STEPS:
+      trace = self.run(writer, [0] * 5000 + [1] * 5000, False)[4]
+      self.STEPS[writer] = (trace.count(0), trace.count(1))
+    return self.STEPS[writer]
+
+  def corpus(self):
+    out = []
+    # (the parameterless function and the fully supplied call are swept point by point in threads-sched)
+    for w in ('class', 'constant-scoped'):
+      r, c = self.steps(w)
+      if not w.startswith('constant'):
+        # the whole call at the reader's preemption points
+        out += [{'writer': w, 'a': 0, 'b': b, 'again': False} for b in range(1, r, 3)]
+      else:
+        # the consumer has gone some way (past its own record) when the read starts; the rest of it, with the first
+        # evaluation of the constants, runs while the reader is stopped
+        out += [{'writer': w, 'a': a, 'b': b, 'again': False}
+                for j, a in enumerate(range(3, c, 9)) for b in range(1 + 3 * (j % 3), r, 10)]
+    return out
+
+  def gen(self, rng, tier):
+    w = rng.choice(sorted(self.WRITERS))
+    r, c = self.steps(w)
+    return {'writer': w, 'a': rng.choice([0, rng.randint(0, c + 2)]), 'b': rng.randint(0, r + 2), 'again': rng.random() < 0.15}
+
+  def shrink(self, case):
+    if case['a']:
+      yield dict(case, a=0)
+    if case['again']:
+      yield dict(case, again=False)
+
+  SEQ = {}
+  PARSER = None       # a second, separate gin with the same definitions: the reads are parsed there
+
+  def impl(self, case):
+    w, a, b = case['writer'], case['a'], case['b']
+    schedule = [1] * a + [0] * b + [1] * 3000 + [0] * 5000
+    errors, reads, results, final, trace = self.run(w, schedule, case['again'])
+    fails = []
+    failed = [(i, e) for i, e in enumerate(errors) if e is not None]
+    who = {0: 'the reader', 1: 'the calling thread', 2: 'the read made after both threads had finished'}
+    for i, e in failed[:1]:
+      fails.append(('read-failed' if i != 1 else 'call-failed', 'the %s call stopped after %d of its steps, the reader run for %d of its steps, the call '
+                    'resumed and run to its end, then the reader: %s raised %s: %s' % (w, a, b, who[i], type(e).__name__, str(e)[:160])))
+    for text in reads + ([final] if final is not None else []):
+      try:
+        if self.PARSER is None:
+          NothingToRecordEngine.PARSER = C.fresh_gin()
+          exec(self.DEFS, {'gin': self.PARSER, '__name__': 'c18mod'})  # pylint: disable=exec-used
+        self.PARSER.clear_config()
+        self.PARSER.parse_config(text)
+      except Exception as e:  # pylint: disable=broad-except
+        fails.append(('read-does-not-parse', '%s: %s: %r' % (type(e).__name__, str(e)[:100], text)))
+        break
+    want = self.WRITERS[w][2]
+    if not failed and results != [want]:
+      fails.append(('call-lost-its-binding', 'the %s call made while the read was under way returned %r, not %r' % (w, results, want)))
+    key = repr((w, case['again']))
+    if key not in self.SEQ:
+      errors2, _, _, final2, _ = self.run(w, None, case['again'])
+      self.SEQ[key] = (final2, [e for e in errors2 if e is not None])
+    final2, errors2 = self.SEQ[key]
+    if errors2 and not failed:
+      fails.append(('sequential-run-failed', '%s: %s' % (type(errors2[0]).__name__, str(errors2[0])[:160])))
+    if not failed and not errors2 and final != final2:
+      fails.append(('final-operative-differs-from-sequential', 'threads %r; sequential %r' % (final, final2)))
+    switches = sum(1 for x, y in zip(trace, trace[1:]) if x != y)
+    return {'obs': T('Done'), 'fails': fails[:3], 'nontrivial': switches >= 2 and not case['again'],
+            'tags': [w, 'switches%d' % switches] + (['again'] if case['again'] else [])}
+
+
 class SingletonHistoryEngine(Engine):
   """sequential histories (with bursts of free-running threads) of singleton USES THROUGH THE CONFIGURATION
   (`user.x = @buf/singleton()`, `buf/singleton.constructor = @mk0`), direct uses (`singleton_value(name[, constructor])`),
@@ -697,4 +891,4 @@ class SingletonHistoryEngine(Engine):
     return {'obs': obs, 'fails': fails[:3], 'nontrivial': repeated >= 1 or after_clear >= 1, 'tags': tags}
 
 
-ENGINES = [ThreadEngine(), ScopedClassReadEngine(), SingletonHistoryEngine()]
+ENGINES = [ThreadEngine(), ScopedClassReadEngine(), NothingToRecordEngine(), SingletonHistoryEngine()]
